@@ -59,7 +59,7 @@ def authentic(data):
 # ---------------------------------------------------------------------------------------------------------------------
 contract(f"{KV}::ECCrypto.is_valid_signature", "is_valid_signature=>Sig",
          vars={"ec": EXPR("ECCrypto()"), "kb": BYTES, "d": BYTES, "s": BYTES, "k": EXPR("OpenSSLPK(kb)")},
-         requires=["uf_bool('valid_public_key', kb)"], call="ec.is_valid_signature(k, d, s)", raises=[],
+         requires=["uf_bool('valid_public_key', kb)", "len(kb) > 0"], call="ec.is_valid_signature(k, d, s)", raises=[],
          ensures=["implies(result, Sig(kb, d, s))", "implies(Sig(kb, d, s), result or True)", "result == True or result == False"],
          covers=["result == True", "result == False"],
          note="True only for a signature that verifies; an exception inside verify yields False, never True")
@@ -76,7 +76,7 @@ PEER_STUBS = {"ipv8/peer.py::Peer.add_address": {"event": "add_address", "note":
 contract(f"{LC}::EZPackOverlay._verify_signature", "_verify_signature",
          vars={"self": OVERLAY, "pk": BYTES, "auth": OBJ("ipv8/messaging/payload_headers.py::BinMemberAuthenticationPayload",
                                                         public_key_bin=EXPR("pk")), "data": BYTES},
-         requires=["uf_bool('valid_public_key', pk)"],
+         requires=["uf_bool('valid_public_key', pk)", "len(pk) > 0"],
          call="self._verify_signature(auth, data)", raises=[],
          ensures=["implies(result[0], Sig(pk, signed_part(data, siglen(pk)), sig_part(data, siglen(pk))))",
                   "result[1] == signed_part(data, siglen(pk))[2 + len(pk):]"],
